@@ -1,3 +1,3 @@
 SPECIFICATION Spec
-INVARIANTS DriverClaim Inv
+INVARIANTS DriverClaim Inv LongInv
 CHECK_DEADLOCK FALSE
